@@ -84,7 +84,9 @@ def harness_sources(kind):
     if kind == 'replay':
         return common + props + [os.path.join(SRC, 'main_replay.cpp')], []
     if kind == 'mt':
-        return common + props + [os.path.join(SRC, 'main_mt.cpp')], ['-pthread']
+        return common + [os.path.join(SRC, 'main_mt.cpp')], ['-pthread']
+    if kind == 'trace':
+        return common + [os.path.join(SRC, 'main_trace.cpp')], []
     if kind.startswith('fuzz_'):
         return common + props + [os.path.join(SRC, 'fuzz', kind + '.cpp')], []
     raise ValueError(kind)
@@ -134,3 +136,64 @@ def build(flavour, kinds=('pbt', 'replay'), quiet=False):
     if not quiet:
         print('[build] %s %s in %.1fs' % (flavour, ','.join(kinds), time.time() - t0), file=sys.stderr)
     return out
+
+
+# ---- C19: the project's own CMake builds ----------------------------------------------------------
+CMAKE_CONFIGS = [(bt, sh) for bt in ('Debug', 'RelWithDebInfo', 'Release') for sh in ('ON', 'OFF')]
+
+def build_cmake_traces():
+    """Builds /repo with its CMakeLists in 6 configurations (scratch trees under .cache/cmake/<hash>) and links the trace
+    driver against each. Returns dict 'BuildType-shared|static' -> (trace binary, env)."""
+    h = repo_hash()[:16]
+    root = os.path.join(CACHE, 'cmake', h)
+    for old in glob.glob(os.path.join(CACHE, 'cmake', '*')):
+        if old != root:
+            shutil.rmtree(old, ignore_errors=True)
+    hdrh = headers_hash()
+    out = {}
+    def one(cfg):
+        bt, sh = cfg
+        name = '%s-%s' % (bt, 'shared' if sh == 'ON' else 'static')
+        bdir = os.path.join(root, name)
+        libname = 'ezc3d_debug' if bt == 'Debug' else 'ezc3d'
+        lib = os.path.join(bdir, 'lib%s.%s' % (libname, 'so' if sh == 'ON' else 'a'))
+        if not os.path.exists(lib):
+            os.makedirs(bdir, exist_ok=True)
+            r = sh_(['cmake', '-G', 'Ninja', '-S', REPO, '-B', bdir, '-DBUILD_EXAMPLE=OFF', '-DBUILD_SHARED_LIBS=' + sh, '-DCMAKE_BUILD_TYPE=' + bt])
+            if r.returncode != 0:
+                raise RuntimeError('cmake configure failed for %s: %s' % (name, r.stdout[-2000:]))
+            r = sh_(['cmake', '--build', bdir, '--target', 'ezc3d'])
+            if r.returncode != 0 or not os.path.exists(lib):
+                raise RuntimeError('cmake build failed for %s: %s' % (name, r.stdout[-2000:]))
+        return name, bdir, lib, libname, sh
+    with ThreadPoolExecutor(max_workers=6) as ex:
+        built = list(ex.map(one, CMAKE_CONFIGS))
+    # harness objects: compiled once with plain flags, no sanitizer (the library under test is the CMake one)
+    flags = ['-std=gnu++17', '-O1', '-g', GUARD]
+    srcs, _ = harness_sources('trace')
+    with ThreadPoolExecutor(max_workers=16) as ex:
+        objs = list(ex.map(lambda s: _compile('g++', flags, s, hdrh), srcs))
+    for o, err in objs:
+        if err:
+            raise RuntimeError(err)
+    olist = [o for o, _ in objs]
+    for name, bdir, lib, libname, sh in built:
+        binp = os.path.join(bdir, 'trace')
+        key = os.path.join(bdir, 'trace.key')
+        want = hashlib.sha1((' '.join(olist) + file_hash(lib)).encode()).hexdigest()
+        have = open(key).read() if os.path.exists(key) else ''
+        if have != want or not os.path.exists(binp):
+            if sh == 'ON':
+                cmd = ['g++'] + olist + ['-L', bdir, '-l' + libname, '-Wl,-rpath,' + bdir, '-o', binp]
+            else:
+                cmd = ['g++'] + olist + [lib, '-o', binp]
+            r = sh_(cmd)
+            if r.returncode != 0:
+                raise RuntimeError('link of trace driver failed for %s: %s' % (name, r.stdout[-2000:]))
+            with open(key, 'w') as f:
+                f.write(want)
+        out[name] = binp
+    return out
+
+def sh_(cmd):
+    return subprocess.run(cmd, stdout=subprocess.PIPE, stderr=subprocess.STDOUT, text=True)
